@@ -789,4 +789,75 @@ twin("twin: twin links written in the other order", ["R-ZIP"],
      [(MU, "            value_to_recompute.simulation_twin = recomputed_value\n            recomputed_value.baseline_twin = value_to_recompute",
        "            recomputed_value.baseline_twin = value_to_recompute\n            value_to_recompute.simulation_twin = recomputed_value")])
 
+# ------------------------------------------------------------------------------------------------ structural clauses
+mut("chain: value appended without waiting for its ancestors", ["R-CHAIN"],
+    [(EB, '''                        if all([has_been_added_to_chain_dict[ancestor.id]
+                                for ancestor in ancestors_that_belong_to_self_descendants]):''',
+      '''                        if True:''')], ["attr_updates_chain append guard"])
+mut("chain: duplicate updates keep the first occurrence", ["R-CHAIN"],
+    [(EB, "        if attr_to_update.id not in attr_to_update_ids[index + 1:]:", "        if attr_to_update.id not in attr_to_update_ids[:index]:")],
+    ["optimize_attr_updates_chain"])
+mut("chain: duplicate objects keep the first occurrence", ["R-CHAIN"],
+    [(MO, "        if mod_obj not in mod_objs_computation_chain[index + 1:]:", "        if mod_obj not in mod_objs_computation_chain[:index]:")],
+    ["optimize_mod_objs_computation_chain"])
+mut("chain: system no longer appended to the recomputation chain", ["R-CHAIN"],
+    [(MO, '''    for mod_obj in ordered_chain:
+        if mod_obj.systems:
+            ordered_chain.append(mod_obj.systems[0])
+            logger.debug("Added system to optimized chain")
+            break
+''', "")], ["system"])
+mut("simdate: filter keeps the hours before the date", ["R-SIMDATE"],
+    [(MU, "                hourly_quantities.value[filtering_index >= self.simulation_date],",
+      "                hourly_quantities.value[filtering_index <= self.simulation_date],")], ["filter direction"])
+mut("simdate: naive dates accepted", ["R-SIMDATE"],
+    [(MU, '''            if simulation_date.tzinfo is None:
+                raise ValueError(
+                    f"Simulation date {simulation_date} should be timezone aware. "
+                    f"Please use a timezone aware datetime object by setting its tzinfo attribute.")
+''', "")], ["naive date"])
+mut("simdate: series selected when they end before the date", ["R-SIMDATE"],
+    [(MU, "            if self.simulation_date <= max_date:", "            if self.simulation_date >= max_date:")],
+    ["selection"])
+mut("delay: delay increased before the step's jobs are placed", ["R-DELAY"],
+    [(JOB, '''        for uj_step in usage_pattern.usage_journey.uj_steps:
+            for uj_step_job in uj_step.jobs:
+                if uj_step_job == self:
+                    job_occurrences += usage_pattern.utc_hourly_usage_journey_starts.return_shifted_hourly_quantities(
+                        delay_between_uj_start_and_job_evt)
+
+            delay_between_uj_start_and_job_evt += uj_step.user_time_spent''',
+      '''        for uj_step in usage_pattern.usage_journey.uj_steps:
+            delay_between_uj_start_and_job_evt += uj_step.user_time_spent
+            for uj_step_job in uj_step.jobs:
+                if uj_step_job == self:
+                    job_occurrences += usage_pattern.utc_hourly_usage_journey_starts.return_shifted_hourly_quantities(
+                        delay_between_uj_start_and_job_evt)''')], ["delay before placement"])
+mut("delay: a job repeated in a step is counted once", ["R-DELAY"],
+    [(JOB, '''                    job_occurrences += usage_pattern.utc_hourly_usage_journey_starts.return_shifted_hourly_quantities(
+                        delay_between_uj_start_and_job_evt)
+''', '''                    job_occurrences += usage_pattern.utc_hourly_usage_journey_starts.return_shifted_hourly_quantities(
+                        delay_between_uj_start_and_job_evt)
+                    break
+''')], ["multiplicity"])
+mut("cumul: initial need added after the running sum", ["R-CUMUL"],
+    [(ST, '''            storage_delta_df.iat[0, 0] += self.base_storage_need.value
+            full_cumulative_storage_need = storage_delta_df.cumsum()''',
+      '''            full_cumulative_storage_need = storage_delta_df.cumsum()
+            full_cumulative_storage_need.iat[0, 0] += self.base_storage_need.value''')], ["base need after cumsum"],
+    undecided_ok=True)
+mut("cumul: freed storage subtracted", ["R-CUMUL"],
+    [(ST, "        storage_delta = (self.storage_needed + self.storage_freed", "        storage_delta = (self.storage_needed - self.storage_freed")],
+    ["delta terms"])
+mut("jsonid: the system keeps the id drawn at re-initialisation", ["R-JSON-ID"],
+    [(J2S, "        system.id = system_id\n", "")], ["system id"])
+mut("valauth: conditional list no longer enforced", ["R-VAL-AUTH"],
+    [(MO, '''            if (conditional_value in conditional_list_values[name]["conditional_list_values"].keys()
+                    and input_value not in
+                    conditional_list_values[name]["conditional_list_values"][conditional_value]):
+                raise ValueError(''', '''            if (conditional_value in conditional_list_values[name]["conditional_list_values"].keys()
+                    and input_value not in
+                    conditional_list_values[name]["conditional_list_values"][conditional_value]):
+                logger.warning(''')], ["conditional_list_values"])
+
 VARIANTS = [v for v in V if v is not None]
